@@ -427,9 +427,10 @@ def harness_outcomes(fam, tier, seed, cdir, indented=True, extra_deps="", main_r
     front = {}
     fp = os.path.join(cd, "front.tsv")
     if os.path.exists(fp):
-        for line in open(fp):
+        for line in open(fp, newline="\n"):
             f = line.rstrip("\n").split("\t")
-            front[f[0]] = (f[1], f[2] if len(f) > 2 else "")
+            if len(f) >= 2:
+                front[f[0]] = (f[1], f[2] if len(f) > 2 else "")
     res = {"build_ok": ok, "build_err": err[-20000:] if not ok else "", "front": front, "outcomes": []}
     if ok:
         t0 = time.time()
